@@ -187,7 +187,7 @@ theorem par_handle_spec (s : St) (h : Head) (fr : Framing) (last : Bool) (a : Ac
 theorem par_runLoop_505 (fuel idx : Nat) (s : St) (bs : Bytes) (fin : EndState) (script : Script)
     (h : Head) (rest : Bytes) (fr : Framing)
     (hh : readHead bs fin = .ok (h, rest))
-    (hf : framingOf h.headers = .ok fr)
+    (hf : framingFor h.version h.headers = .ok fr)
     (hshort : ∀ n, fr.kind = .buffered n → n ≤ rest.length)
     (hver : (⟨Extracted.maxVersion.1, Extracted.maxVersion.2⟩ : Version).lt h.version = true) :
     runLoop (fuel + 1) idx s bs fin script =
@@ -206,7 +206,7 @@ theorem par_runLoop_505 (fuel idx : Nat) (s : St) (bs : Bytes) (fin : EndState) 
 theorem par_runLoop_short (fuel idx : Nat) (s : St) (bs : Bytes) (fin : EndState) (script : Script)
     (h : Head) (rest : Bytes) (fr : Framing) (n : Nat)
     (hh : readHead bs fin = .ok (h, rest))
-    (hf : framingOf h.headers = .ok fr)
+    (hf : framingFor h.version h.headers = .ok fr)
     (hk : fr.kind = .buffered n) (hs : rest.length < n) :
     (runLoop (fuel + 1) idx s bs fin script).out = s.out ∧
     (runLoop (fuel + 1) idx s bs fin script).delivered = s.delivered := by
@@ -247,7 +247,7 @@ def framingErrBytes (v : Version) : CreateErr → Bytes
 
 theorem par_runLoop_framing_error (fuel idx : Nat) (s : St) (bs : Bytes) (fin : EndState) (script : Script)
     (h : Head) (rest : Bytes) (e : CreateErr)
-    (hh : readHead bs fin = .ok (h, rest)) (hf : framingOf h.headers = .error e) :
+    (hh : readHead bs fin = .ok (h, rest)) (hf : framingFor h.version h.headers = .error e) :
     (runLoop (fuel + 1) idx s bs fin script).out = s.out ++ framingErrBytes h.version e ∧
     (runLoop (fuel + 1) idx s bs fin script).delivered = s.delivered := by
   simp only [runLoop, hh, hf]
@@ -267,7 +267,7 @@ theorem par_runLoop_acc (fuel : Nat) : ∀ (idx : Nat) (s : St) (bs : Bytes) (fi
       rw [a1, a2, b1, b2]; simp
     | ok p =>
       obtain ⟨h, rest⟩ := p
-      cases hf : framingOf h.headers with
+      cases hf : framingFor h.version h.headers with
       | error e =>
         obtain ⟨a1, a2⟩ := par_runLoop_framing_error fuel idx s bs fin script h rest e hh hf
         obtain ⟨b1, b2⟩ := par_runLoop_framing_error fuel idx {} bs fin script h rest e hh hf
@@ -292,6 +292,7 @@ theorem par_runLoop_acc (fuel : Nat) : ∀ (idx : Nat) (s : St) (bs : Bytes) (fi
               obtain ⟨b1, b2⟩ := ih idx (({} : St).emit 505 (some print505) true) rest2 fin script
               rw [a1, a2, b1, b2]; simp
           | false =>
+            rw [framingFor_of_not_high _ _ hver] at hf
             rw [runLoop_step fuel idx s bs fin script h rest fr hh hf hshort hver,
               runLoop_step fuel idx {} bs fin script h rest fr hh hf hshort hver]
             have hs := par_handle_spec s h fr (isLastRequest h.version h.headers) (script idx)
